@@ -29,10 +29,16 @@ class P:
         self.idx, self.cls_id = idx, cls
         self._fields = dict(fields)
         for k, v in fields.items():
-            if not k.startswith("m_"):
+            if not k.startswith(("m_", "c_")):
                 setattr(self, k, v)
     def dbl(self):
         return self._fields["m_dbl"]
+    def __getattr__(self, name):
+        # a COMPUTED collection (field "c_<name>": a @property building its value on access): a fresh list per access
+        if name.startswith("c_") and name in self.__dict__.get("_fields", {}):
+            v = self.__dict__["_fields"][name]
+            return list(v) if isinstance(v, list) else v
+        raise AttributeError(name)
     def __repr__(self):
         return f"o{self.idx}"
 
@@ -247,7 +253,7 @@ def make_objects(q, classes=None) -> List[Any]:
         fields = {k: real_val(v, objs) for k, v in o["fields"].items()}
         ob._fields = fields
         for k, v in fields.items():
-            if not k.startswith("m_"):
+            if not k.startswith(("m_", "c_")):
                 object.__setattr__(ob, k, v)
     return objs
 
@@ -755,6 +761,120 @@ def gen_subquery_query(rnd):
     return {"sel": [("var", v) for v in selv], "cond": cond, "objs": objs,
             "doms": {n: d for n, d in doms.items() if n in used}, "kinds": {n: k for n, k in kinds.items() if n in used},
             "force_set_of": len(selv) > 1}
+
+
+def gen_same_container_query(rnd):
+    """comparisons whose BOTH operands are index / attribute / call terms (`x.items[0] == x.items[1]`, `x.peers[1] != x.peers[0]`,
+    `x.a == x.a`, the self-join `x.items[1] == y.items[0]` over overlapping domains): operands taken from the same
+    container or the same object in one row; alone, negated, or combined with a plain atom"""
+    nv = rnd.choice([1, 1, 2])
+    vs = ["x", "y"][:nv]
+    nobj = rnd.randrange(2, 6)
+    objs = []
+    for _ in range(nobj):
+        a = rnd.randrange(0, 3)
+        n = rnd.choice([2, 2, 3])
+        items = [rnd.randrange(0, 3) for _ in range(n)]
+        if rnd.random() < 0.4:
+            items[1] = items[0]
+        peers = [rnd.randrange(nobj) for _ in range(n)]
+        if rnd.random() < 0.4:
+            peers[1] = peers[0]
+        objs.append({"cls": 0, "veq": False, "fields": {"a": a, "f": rnd.random() < 0.5, "items": items,
+                                                         "peers": ("objs", peers), "m_dbl": 2 * a}})
+    kinds = {v: "obj" for v in vs}
+    doms = {v: [("obj", i) for i in range(nobj) if rnd.random() < 0.85] for v in vs}
+    def operand(v):
+        k = rnd.random()
+        if k < 0.45:
+            return ("index", ("attr", ("var", v), "items"), rnd.randrange(0, 2))
+        if k < 0.75:
+            return ("index", ("attr", ("var", v), "peers"), rnd.randrange(0, 2))
+        if k < 0.85:
+            return ("attr", ("var", v), "a")
+        if k < 0.93:
+            return ("call", ("var", v), "dbl")
+        return ("attr", ("var", v), "items")
+    def atom():
+        l = operand(rnd.choice(vs))
+        for _ in range(20):
+            r = operand(rnd.choice(vs))
+            # comparable operands: both numbers, both objects, or both collections
+            cl = lambda t: "o" if (t[0] == "index" and t[1][2] == "peers") else ("l" if (t[0] == "attr" and t[2] == "items") else "n")
+            if cl(l) == cl(r):
+                break
+        else:
+            r = l
+        op = rnd.choice(["eq", "ne", "eq", "ne", "lt", "ge"]) if cl(l) == "n" else rnd.choice(["eq", "ne"])
+        return ("cmp", op, l, r)
+    def plain():
+        v = rnd.choice(vs)
+        return rnd.choice([("cmp", rnd.choice(list(OPS)), ("attr", ("var", v), "a"), ("lit", rnd.randrange(0, 3))),
+                           ("truth", ("attr", ("var", v), "f"))])
+    r = rnd.random()
+    a = atom()
+    if r < 0.4:
+        cond = a
+    elif r < 0.55:
+        cond = ("not", a)
+    elif r < 0.7:
+        cond = ("and", plain(), a)
+    elif r < 0.8:
+        cond = ("and", a, atom())
+    elif r < 0.9:
+        cond = ("or", a, plain())
+    else:
+        cond = ("and", plain(), ("not", a))
+    sel = [("var", v) for v in rnd.sample(vs, rnd.randrange(1, nv + 1))]
+    used = set(c_allvars(cond)) | {t[1] for t in sel}
+    return {"sel": sel, "cond": cond, "objs": objs, "doms": {n: d for n, d in doms.items() if n in used},
+            "kinds": {n: k for n, k in kinds.items() if n in used}, "force_set_of": len(sel) > 1}
+
+
+def gen_computed_collection_query(rnd):
+    """membership / comparison conditions over a COMPUTED collection (`c_tags`: built afresh by every access, as a
+    @property returning `sorted(...)` does) next to a stored one, over 3-8 objects with different collections; literal and
+    joined items, `contains` alone, negated and in conjunctions"""
+    nobj = rnd.randrange(3, 9)
+    objs = []
+    for _ in range(nobj):
+        a = rnd.randrange(0, 4)
+        tags = sorted(rnd.sample(range(0, 5), rnd.randrange(0, 4)))
+        objs.append({"cls": 0, "veq": False, "fields": {"a": a, "f": rnd.random() < 0.5, "items": list(tags),
+                                                         "c_tags": tags, "m_dbl": 2 * a}})
+    two = rnd.random() < 0.35
+    vs = ["x", "y"] if two else ["x"]
+    kinds = {"x": "obj", "y": rnd.choice(["int", "obj"])}
+    doms = {"x": [("obj", i) for i in range(nobj) if rnd.random() < 0.9]}
+    if two:
+        doms["y"] = (sorted(rnd.sample(range(0, 5), rnd.randrange(1, 4))) if kinds["y"] == "int"
+                     else [("obj", i) for i in range(nobj) if rnd.random() < 0.6])
+    coll = ("attr", ("var", "x"), "c_tags" if rnd.random() < 0.8 else "items")
+    def item():
+        if two and rnd.random() < 0.8:
+            return ("var", "y") if kinds["y"] == "int" else ("attr", ("var", "y"), "a")
+        return ("lit", rnd.randrange(0, 5)) if rnd.random() < 0.8 else ("attr", ("var", "x"), "a")
+    k = rnd.random()
+    a = ("contains", coll, item())
+    if k < 0.1:
+        a = ("cmp", rnd.choice(["eq", "ne"]), coll, ("lit", sorted(rnd.sample(range(0, 5), rnd.randrange(0, 3)))))
+    r = rnd.random()
+    if r < 0.45:
+        cond = a
+    elif r < 0.6:
+        cond = ("not", a)
+    elif r < 0.75:
+        cond = ("and", ("cmp", rnd.choice(list(OPS)), ("attr", ("var", "x"), "a"), ("lit", rnd.randrange(0, 3))), a)
+    elif r < 0.88:
+        cond = ("and", a, ("contains", coll, item()))
+    else:
+        cond = ("or", a, ("contains", ("attr", ("var", "x"), "c_tags"), item()))
+    used = set(c_allvars(cond)) | {"x"}
+    sel = [("var", v) for v in vs if v in used]
+    if len(sel) > 1 and rnd.random() < 0.5:
+        sel = [("var", "x")]
+    return {"sel": sel, "cond": cond, "objs": objs, "doms": {n: d for n, d in doms.items() if n in used},
+            "kinds": {n: k for n, k in kinds.items() if n in used}, "force_set_of": len(sel) > 1}
 
 
 def cond_ops(c, acc=None) -> List[str]:
